@@ -9,7 +9,17 @@
 (* events: [op |-> "has"|"get", o, p, sp, n, err, found(, blob)],          *)
 (*         [op |-> "scripts"|"md5sums", o, err, map],                      *)
 (*         [op |-> "debcontrol", o, err, blob], [op |-> "mutate"],         *)
-(*         [op |-> "reopen", o, pkg]  (same member list, new content).     *)
+(*         [op |-> "reopen", o, pkg]  (same member list, new content),     *)
+(*         [op |-> "readbegin", o, p, sp, n, err, found] get_file + head,  *)
+(*         [op |-> "readend", o, err, found, blob]  head + remainder,      *)
+(*         [op |-> "ar", o, kind, w, err]  ArFile-level call naming the    *)
+(*            member of part w ("info": debian-binary / no member named),  *)
+(*         [op |-> "fault", o, q(, p, sp, n), exc]  the caller's file      *)
+(*            object raised during query q: exc = "caller" (the injected   *)
+(*            exception itself came out) or "DebError"; anything else is   *)
+(*            not a step of the specification.                             *)
+(* After a fault outside FaultDomOf the object is tainted: its events are  *)
+(* accepted whatever they say, until it is opened again.                   *)
 (***************************************************************************)
 EXTENDS DebFileCache, IOUtils, TLCExt
 
@@ -31,6 +41,7 @@ TInit == /\ tid \in 1..Len(Traces)
                                               data |-> OpenOf(Traces[tid].objs[o].mem).data]]]
          /\ gen = [o \in Objs |-> 0]
          /\ tcache = {} /\ ccache = {} /\ rmemo = {} /\ last = <<>>
+         /\ fh = <<>> /\ strm = {} /\ scan = [dead |-> {}, seen |-> {}] /\ taint = {}
          /\ hres = [op |-> "init"]
 
 TStep == /\ l <= Len(Tr.events)
@@ -55,6 +66,24 @@ TStep == /\ l <= Len(Tr.events)
               \/ /\ e.op = "reopen"
                  /\ Reopen(e.o, e.pkg)
                  /\ UNCHANGED gen
+              \/ /\ e.op = "readbegin"
+                 /\ ReadBegin(e.o, e.p, e.sp, e.n)
+                 /\ hres'.out.err = e.err /\ hres'.out.found = e.found
+              \/ /\ e.op = "readend"
+                 /\ fh # <<>> /\ fh.o = e.o
+                 /\ ReadEnd
+                 /\ hres'.out.err = e.err /\ hres'.out.found = e.found /\ hres'.out.blob = e.blob
+              \/ /\ e.op = "ar"
+                 /\ e.kind \in ArKinds /\ e.w \in ArWhich
+                 /\ ArCall(e.o, e.kind, e.w)
+                 /\ hres'.out.err = e.err
+              \/ /\ e.op = "fault"
+                 /\ e.exc \in FaultExc
+                 /\ Fault(e.o, e.q, IF e.q \in {"has", "get", "readbegin"} THEN <<e.p, e.sp, e.n>> ELSE <<>>)
+              \/ /\ e.op \in QueryOps \cup ReadOps \cup {"ar", "fault"}
+                 /\ e.o \in taint                       \* unspecified: whatever a tainted object says
+                 /\ hres' = [op |-> "tainted", o |-> e.o]
+                 /\ UNCHANGED <<objs, gen, tcache, ccache, rmemo, last, fh, strm, scan, taint>>
          /\ l' = l + 1 /\ UNCHANGED tid
          /\ (Diag => PrintT(<<"AT", tid, l>>))
          /\ (l' = Len(Tr.events) + 1 => PrintT(<<"ACCEPTED", tid>>))
